@@ -95,9 +95,9 @@ class MockGenerator:
                     sig_stripped = lines[temp_i].strip()
                     signature_lines.append(sig_stripped)
                     if sig_stripped.endswith(":") and not sig_stripped.endswith(","):
-                        # Check if AsyncIterator in return type
-                        full_sig = " ".join(signature_lines)
-                        is_async_generator = "AsyncIterator" in full_sig
+                        # Check if the return type is AsyncIterator[...] (not merely mentioned in a parameter
+                        # annotation or in a model class name such as AsyncIteratorInfo)
+                        is_async_generator = ") -> AsyncIterator[" in sig_stripped
                         break
                     temp_i += 1
 
